@@ -65,11 +65,16 @@ def with_int_limit(limit, fn):
         INT_LIMIT['now'] = None
 
 
-def check(mode, s, cls, ctx, fns):
+EDITS = [0]
+
+
+def check(mode, s, cls, ctx, fns, again=False, force_edit=None):
     from emmet.scanner import ScannerException
     ctx.ev(cls)
     r = core.call(fns[mode], s)
     case = {'mode': mode, 's': s}
+    if again is not False:
+        case['after_caller_edit'] = again
     if INT_LIMIT['now'] is not None:
         case['int_max_str_digits'] = INT_LIMIT['now']
     if r[0] == 'exc':
@@ -111,6 +116,28 @@ def check(mode, s, cls, ctx, fns):
         return
     if len(toks) >= 2:
         ctx.seen((mode, s))
+    EDITS[0] += 1
+    if again is False and toks and (EDITS[0] % 5 == 0 or force_edit is not None):
+        # the caller does what it likes with the list it was given (drops a dangling operator before parsing, appends, moves a span) and then
+        # asks again for the same string: the answer tiles the input as before
+        ctx.mon('oracle:tiling-after-the-caller-edited-an-earlier-result')
+        k = EDITS[0] // 5 % 4 if force_edit is None else force_edit
+        if k == 0:
+            toks.pop()
+        elif k == 1:
+            toks += [toks[0], toks[-1]]
+        elif k == 2:
+            try:
+                toks[-1].end += 3
+                toks[0].start += 1
+            except AttributeError:
+                pass
+        else:
+            del toks[:]
+        check(mode, s, cls + ':asked-again', ctx, fns, again=k)
+        if k == 3:
+            check(mode, s, cls + ':asked-again', ctx, fns, again=k)
+        return
     if len(ctx.samples) < 2 and len(toks) >= 3:
         ctx.sample({'mode': mode, 'input': s, 'spans': [[type(t).__name__, t.start, t.end] for t in toks]})
 
@@ -178,7 +205,7 @@ def replay(case, ctx):
     if case.get('int_max_str_digits') is not None:
         with_int_limit(case['int_max_str_digits'], lambda: check(case['mode'], case['s'], 'replay', ctx, _fns()))
         return
-    check(case['mode'], case['s'], 'replay', ctx, _fns())
+    check(case['mode'], case['s'], 'replay', ctx, _fns(), force_edit=case.get('after_caller_edit'))
 
 
 # known findings (mechanism-keyed); enabled only while listed as open in known_findings.json
